@@ -328,7 +328,7 @@ theorem recvLoop_sync (proto : Nat) (hp1 : 1 ≤ proto) (hp5 : proto ≤ 5) (dl 
     have hnbig : ¬ f.h.length > maxFrameSize := by omega
     by_cases hev : f.h.stream = -1
     · have hns : (-1 : Int) ≤ numStreams proto := by simp only [numStreams]; split <;> omega
-      simp [recvLoop, hh, hnb, hnbig, hev, hrb, ih, dispatch, hns]
+      simp [recvLoop, hh, hnbig, hev, hrb, ih, dispatch, hns]
     · have hpos : 1 ≤ f.h.stream := by rcases hst with h | h <;> omega
       have hne : ¬ (f.h.stream = -1 ∨ f.h.stream ≤ 0) := by omega
       have hle : ¬ f.h.stream ≤ 0 := by omega
@@ -339,8 +339,8 @@ theorem recvLoop_sync (proto : Nat) (hp1 : 1 ≤ proto) (hp5 : proto ≤ 5) (dl 
         have hdis := discard_calm dl (f.body.length + 1) _ f.body.length (by omega) hk hcalm
         have hn : ¬ f.h.length < 0 := by omega
         have ht : f.h.length.toNat = f.body.length := by omega
-        simp [recvLoop, hh, hnb, hnbig, hne, hle, hlt, hev, hfind, hn, ht, hdis, ih, dispatch]
+        simp [recvLoop, hh, hnb, hnbig, hle, hev, hfind, hn, ht, hdis, ih, dispatch]
       | some w =>
-        cases w <;> simp [recvLoop, hh, hnb, hnbig, hne, hle, hlt, hev, hfind, hrb, ih, dispatch]
+        cases w <;> simp [recvLoop, hh, hnb, hnbig, hle, hev, hfind, hrb, ih, dispatch]
 
 end Rx
